@@ -87,6 +87,26 @@ static uint32_t vp_errno_cell;
 static uint32_t *vp_errno_location(void) { return &vp_errno_cell; }
 static uint8_t vp_strerror_text[6] = { 'e', 'r', 'r', 'o', 'r', 0 };
 static uint8_t *vp_strerror(uint32_t e) { (void)e; return vp_strerror_text; }
+/* strtol, base 10 only (C11 7.22.1.4): leading isspace, optional sign, digits, clamp on overflow */
+static uint64_t vp_strtol(uint8_t *s, uint8_t **end, uint32_t base)
+{
+   uint64_t i = 0, acc = 0;
+   int neg = 0, any = 0, over = 0;
+   if (base != 10) { VP_UNMODELLED("strtol with a base other than 10"); }
+   while (s[i] == ' ' || (s[i] >= 9 && s[i] <= 13)) { i++; }
+   if (s[i] == '-') { neg = 1; i++; } else if (s[i] == '+') { i++; }
+   while (s[i] >= '0' && s[i] <= '9')
+   {
+      uint64_t d = (uint64_t)(s[i] - '0');
+      if (acc > (0x7fffffffffffffffULL - d) / 10) { over = 1; } else { acc = acc * 10 + d; }
+      any = 1;
+      i++;
+   }
+   if (end) { *end = any ? s + i : s; }
+   if (!any) { return 0; }
+   if (over) { return neg ? 0x8000000000000000ULL : 0x7fffffffffffffffULL; }
+   return neg ? (uint64_t)(-(int64_t)acc) : acc;
+}
 static uint32_t vp_cxa_atexit(void *a, uint8_t *b, uint8_t *c) { (void)a; (void)b; (void)c; return 0; }
 static uint32_t vp_atexit(void *a) { (void)a; return 0; }
 static void vp_c_abort(void) { VP_ABORT("abort() called"); }
